@@ -743,8 +743,8 @@ class Formatter:
         return f"OFFSET {num}"
 
     def fetch(self, json, prec):
-        num = self.dispatch(json["offset"], precedence["order"])
-        return f"FETCH {num} ROWS ONLY"
+        num = self.dispatch(json["fetch"], precedence["order"])
+        return f"FETCH FIRST {num} ROWS ONLY"
 
     def delete(self, json, prec):
         acc = ["DELETE FROM ", json["delete"]]
